@@ -791,6 +791,14 @@ func c05r3(rc *core.RC) {
 					if !has {
 						return true
 					}
+					// the condition is exactly `<err> != nil`: a conjunction would let some trailing input pass
+					be, isCmp := core.Unparen(ifs.Cond).(*ast.BinaryExpr)
+					if !isCmp || be.Op != token.NEQ || !core.IsNilIdent(info, be.Y) {
+						return true
+					}
+					if _, isId := core.Unparen(be.X).(*ast.Ident); !isId {
+						return true
+					}
 					gb, _ := cf.BlockOf(ifs.Cond)
 					tb, _ := core.IfEdges(gb)
 					if gb != nil && cf.Dominates(gb, rb) && tb != nil && cf.AllPathsReturnError(tb, nil) {
@@ -798,7 +806,7 @@ func c05r3(rc *core.RC) {
 					}
 					return true
 				})
-				rc.Check(okDom, key, ret.Pos(), "success return after decoding is dominated by `if err := validateEndBuf(...); err != nil { return err }`")
+				rc.Check(okDom, key, ret.Pos(), "success return after decoding is dominated by `if err := validateEndBuf(...); err != nil { return err }` (the condition being exactly the nil test)")
 				continue
 			}
 			rc.OK(key+"/error", ret.Pos(), "error return")
